@@ -24,7 +24,10 @@ def run(name):
 def main():
     args=sys.argv[1:]; j=4
     if args[:1]==["-j"]: j=int(args[1]); args=args[2:]
-    names=sorted(n for n in os.listdir(SEED) if os.path.exists(os.path.join(SEED,n,"patch.diff")) and (not args or n in args))
+    def skip(n):
+        mp=os.path.join(SEED,n,"meta.json")
+        return os.path.exists(mp) and json.load(open(mp)).get("skip_in_matrix")
+    names=sorted(n for n in os.listdir(SEED) if os.path.exists(os.path.join(SEED,n,"patch.diff")) and (not args or n in args) and not skip(n))
     with cf.ThreadPoolExecutor(j) as ex:
         for name,res,err in ex.map(run,names):
             if res is None: print(f"{name:12s} ERROR {err}"); continue
